@@ -181,7 +181,7 @@ def run(ctx):
         elif leg == "dag":
             env["VERIF_CORPUS"] = os.path.join(os.path.dirname(os.path.dirname(os.path.abspath(__file__))), "harness", "corpus", "C06")
         # a check never runs unbounded: a few times the normal duration of the leg (quick ~10 s, thorough ~2 min)
-        limit = 2400 if ctx.thorough else 300
+        limit = 3000 if ctx.thorough else 600
         outdir = os.path.join(ctx.scratch, "out_" + leg)
         try:
             rc, log, out = ctx.run_harness(binary, test, env, outdir=outdir, timeout=limit)
